@@ -1124,6 +1124,20 @@ class World(masterloop.LoopWorld):
             if data.get('parent') == op['name']:
                 self.untold_servers.add(name)
 
+    def op_bucket_reparent(self, op):
+        """An administrator redeclares an existing bucket under another
+        parent (masterapi.create_bucket on a name that exists: the record is
+        rewritten and a 'buckets' event posted).  A running master keeps a
+        loaded bucket where it is; a newly started one builds the topology
+        from the records."""
+        if self.zk.nodes.get(z.path.bucket(op['name'])) is None or \
+                self.zk.nodes.get(z.path.bucket(op['parent'])) is None:
+            return
+        masterapi.create_bucket(self.admin, op['name'], op['parent'])
+        self.faults['bucket_reparented'] = \
+            self.faults.get('bucket_reparented', 0) + 1
+        self.dirty_since_cycle = True
+
     def op_zombie_write(self, op):
         """A delayed write of a former master that lost leadership but whose
         session is not gone yet: a placement record for an instance under a
@@ -2870,6 +2884,56 @@ class Generator:
             {'op': 'drain'}, {'op': 'master_cycle'}])
         return {'op': 'drain'}
 
+    def g_rack_reparent(self, world, staged=False, aff=None):
+        """A rack that holds placed instances is redeclared under another
+        pod (C04 and C09 runs only: the other properties' reading of the
+        records follows the declared topology, and a restarted master that
+        finds two recorded instances in what is now one pod must drop one -
+        C04 outranks C11 there).  First instances of an affinity limited to
+        one per pod are spread over the pods."""
+        if world.prop not in ('C04', 'C09'):
+            return None
+        pods = [p for p, _r in self.config['topology']]
+        if len(pods) < 2:
+            return None
+        if not staged:
+            proid = self.rng.choice(self.config['proids'])
+            aff = '%s.rr' % proid
+            self.config['aff_limits'][aff] = {'pod': 1}
+            manifest = {'memory': '256M', 'cpu': '10%', 'disk': '256M',
+                        'affinity': aff, 'affinity_limits': {'pod': 1},
+                        'priority': 50}
+            self.follow.extend([{'op': 'drain'}, {'op': 'master_cycle'},
+                                {'gen': 'rack_reparent', 'aff': aff}])
+            return {'op': 'app_create', 'app_id': aff, 'manifest': manifest,
+                    'count': len(pods)}
+        racks = {}
+        for app, recs in world.stored_placement().items():
+            if aff is not None and app.split('#')[0] != aff:
+                continue
+            for srv, _d in recs:
+                data = world._zk_obj(z.path.server(srv)) or {}
+                if data.get('parent'):
+                    racks.setdefault(data['parent'], 0)
+                    racks[data['parent']] += 1
+        cands = []
+        for rack in sorted(racks):
+            bdata = world._zk_obj(z.path.bucket(rack)) or {}
+            if bdata.get('parent') in pods:
+                cands.append((rack, bdata['parent']))
+        if not cands:
+            return None
+        rack, cur = self.rng.choice(cands)
+        held = {p for _r, p in cands}
+        target = self.rng.choice([p for p in pods if p != cur and
+                                  p in held] or
+                                 [p for p in pods if p != cur])
+        self.follow.extend([{'op': 'drain'}, {'op': 'master_cycle'}])
+        if self.rng.random() < 0.3:
+            self.follow.extend([{'op': 'restart'}, {'op': 'drain'},
+                                {'op': 'master_cycle'}])
+        return {'op': 'bucket_reparent', 'name': rack, 'parent': target}
+
     def g_stale_presence_snapshot(self, world):
         """A server the master holds as down registers again, the watch
         fires, and the server is gone again before the master gets to the
@@ -3407,6 +3471,7 @@ OP_WEIGHTS = [
     ('identity_shrink_regrow', 3), ('drop_group_members', 0),
     ('late_event', 3), ('blackout_then_failover', 3),
     ('trait_gained_then_probe', 0), ('reload_vanish', 3),
+    ('rack_reparent', 3),
 ]
 
 
